@@ -181,7 +181,7 @@ theorem parseInt_intStr (n : Int) : parseInt (intStr n) = some n := by
       exact absurd rfl (digit_head_ne_sign _ _ heq).2
     · rw [parseNat_natDigits]; rfl
   | negSucc m =>
-    simp only [intStr, parseNat_natDigits, Option.map_some]
+    simp only [intStr, parseNat_natDigits]
     rfl
 
 /-! ### extents -/
@@ -207,11 +207,11 @@ theorem takeWhile_append_stop {p : Nat → Bool} {a : Str} {x : Nat} {b : Str}
     (ha : ∀ c ∈ a, p c = true) (hx : p x = false) :
     (a ++ x :: b).takeWhile p = a ∧ (a ++ x :: b).dropWhile p = x :: b := by
   induction a with
-  | nil => simp [List.takeWhile, List.dropWhile, hx]
+  | nil => simp [hx]
   | cons c cs ih =>
     have hc := ha c (by simp)
     have := ih (fun d hd => ha d (by simp [hd]))
-    simp [List.takeWhile, List.dropWhile, hc, this.1, this.2]
+    simp [hc, this.1, this.2]
 
 theorem groups_extentsStr : ∀ (e : List Int) (f : Nat), e ≠ [] → e.length < f →
     groups f (extentsStr e) = some (e.map intStr) := by
@@ -236,7 +236,7 @@ theorem groups_extentsStr : ∀ (e : List Int) (f : Nat), e ≠ [] → e.length 
       | cons m r' =>
         have hd : (extentsStr (m :: r')).dropWhile isWs = extentsStr (m :: r') := by
           have hw : isWs 91 = false := by decide
-          simp [extentsStr, List.dropWhile, hw]
+          simp [extentsStr, hw]
         have hne2 : (extentsStr (m :: r')).isEmpty = false := by simp [extentsStr]
         simp only [hd, hne2]
         rw [ih f (by simp) (by simp only [List.length_cons] at hf ⊢; omega)]
